@@ -202,6 +202,7 @@ func c10CoreCalls(c *mc.Ctx, mtu int, disableStapA, avc bool, calls [][][]byte, 
 			c.Failf("input-modified", "%s: Payload changed its input", desc())
 		}
 		payloads = append(payloads, cloneAll(out)...)
+		scribble(in) // the caller writes its next access unit into the same buffer
 	}
 	for i, pl := range payloads {
 		if len(pl) == 0 || len(pl) > mtu {
